@@ -499,6 +499,7 @@ class OverhangFilter(Module):
         x = self.sig_in[0].state
         xprint = self.sig_out[0].state
         dx = np.zeros_like(dxprint)
+        dxprint = dxprint.copy()  # The sensitivities are accumulated layer-by-layer; do not modify the incoming seed
 
         # Size of the domain
         size = [self.domain.nelx, self.domain.nely, max(self.domain.nelz, 1)]
